@@ -241,10 +241,35 @@ func successReturnIn(r *core.Run, fn *ssa.Function, b *ssa.BasicBlock) bool {
 	if c, ok := last.(*ssa.Const); ok && c.Value == nil {
 		return true
 	}
-	ck := &guard.Checker{P: r.P, Fn: fn, Res: r.Resolver(fn)}
-	t := r.Resolver(fn).Of(last).String()
-	if ok, _ := ck.MustPass(b, []guard.Atom{guard.Ne(guard.Exact(t), "nil")}); ok {
+	return !errNonNilAt(r, fn, b, last, 0)
+}
+
+// errNonNilAt: the error value is non-nil whenever block b is reached.
+func errNonNilAt(r *core.Run, fn *ssa.Function, b *ssa.BasicBlock, v ssa.Value, depth int) bool {
+	if depth > 4 {
 		return false
 	}
-	return true
+	if definitelyNonNil(v, 0) {
+		return true
+	}
+	if c, ok := v.(*ssa.Call); ok && len(c.Call.Args) > 0 {
+		name := ""
+		if sc := c.Call.StaticCallee(); sc != nil {
+			name = sc.Name()
+		} else if u, ok := c.Call.Value.(*ssa.UnOp); ok {
+			if g, ok := u.X.(*ssa.Global); ok {
+				name = g.Name()
+			}
+		}
+		if name == "Wrap" || name == "Wrapf" {
+			return errNonNilAt(r, fn, b, c.Call.Args[0], depth+1)
+		}
+	}
+	if mi, ok := v.(*ssa.ChangeInterface); ok {
+		return errNonNilAt(r, fn, b, mi.X, depth+1)
+	}
+	ck := &guard.Checker{P: r.P, Fn: fn, Res: r.Resolver(fn)}
+	t := r.Resolver(fn).Of(v).String()
+	ok, _ := ck.MustPass(b, []guard.Atom{guard.Ne(guard.Exact(t), "nil")})
+	return ok
 }
